@@ -1,6 +1,7 @@
 package main
 
 import (
+	"go/constant"
 	"fmt"
 	"go/token"
 	"go/types"
@@ -128,6 +129,9 @@ func checkC05(r *Run) {
 				total |= it.Mask
 			}
 			switch {
+			case !known && !cond && (total == 0xC0 || total == 0xE0) && len(pi.Parts) == 0:
+				// PINGREQ / DISCONNECT given a packet type of their own: fixed header only
+				r2.OK(key, pi.Call.Pos(), "fixed header 0x%02X, empty body", total)
 			case !known:
 				r2.Bad(key, pi.Call.Pos(), "unexpected packet type %s packs a packet", pi.T)
 			case cond:
@@ -297,6 +301,17 @@ func (c *Ctx) renderItems(its []bItem) string {
 			} else {
 				out = append(out, "byte:"+fieldNameOfOperand(it.Val))
 			}
+		case "string":
+			// a constant string is its length prefix and its bytes (the protocol name "MQTT")
+			if k, ok := it.Val.(*ssa.Const); ok && k.Value != nil && k.Value.Kind() == constant.String {
+				sv := constant.StringVal(k.Value)
+				out = append(out, fmt.Sprintf("byte:0x%02X", len(sv)>>8), fmt.Sprintf("byte:0x%02X", len(sv)&0xFF))
+				for i := 0; i < len(sv); i++ {
+					out = append(out, fmt.Sprintf("byte:0x%02X", sv[i]))
+				}
+				continue
+			}
+			out = append(out, it.Kind+":"+fieldNameOfOperand(it.Val))
 		default:
 			out = append(out, it.Kind+":"+fieldNameOfOperand(it.Val))
 		}
@@ -352,8 +367,9 @@ func (c *Ctx) checkBody(rr *RuleRep, rflag *RuleRep, pi packInfo) {
 
 // matchPattern: token-wise comparison where '*' in the pattern matches any operand name.
 func matchPattern(want, got string) bool {
-	w := strings.Fields(want)
-	g := strings.Fields(got)
+	// how the body is split into operands of pack() does not matter, only the order of the bytes
+	w := strings.Fields(strings.ReplaceAll(want, " | ", " "))
+	g := strings.Fields(strings.ReplaceAll(got, " | ", " "))
 	if len(w) != len(g) {
 		return false
 	}
@@ -417,16 +433,38 @@ func (c *Ctx) checkSubscribeOptions(rr *RuleRep, pi packInfo, all [][]bItem) {
 
 func (c *Ctx) checkConnectFlags(rr *RuleRep, pi packInfo, all [][]bItem) {
 	key := FuncName(pi.F) + "/connect-flags"
-	if len(all) < 3 || len(all[0]) != 8 {
+	// the body as one sequence, however it was split into operands; a constant string (the protocol name) counts as its bytes
+	var flat []bItem
+	for _, its := range all {
+		for _, it := range its {
+			if it.Kind == "string" {
+				if k, ok := it.Val.(*ssa.Const); ok && k.Value != nil && k.Value.Kind() == constant.String {
+					sv := constant.StringVal(k.Value)
+					for i := 0; i < len(sv)+2; i++ {
+						flat = append(flat, bItem{Kind: "byte", Val: ssa.NewConst(constant.MakeInt64(0), types.Typ[types.Uint8])})
+					}
+					continue
+				}
+			}
+			flat = append(flat, it)
+		}
+	}
+	if len(flat) < 9 {
 		rr.Undecided(key, pi.Call.Pos(), "variable header not found")
 		return
 	}
+	for _, it := range flat[:8] {
+		if it.Kind != "byte" {
+			rr.Undecided(key, pi.Call.Pos(), "variable header not found")
+			return
+		}
+	}
 	// protocol level byte = ProtocolLevel field
-	if f := fieldNameOfOperand(stripConv(all[0][6].Val)); f != "ProtocolLevel" {
+	if f := fieldNameOfOperand(stripConv(flat[6].Val)); f != "ProtocolLevel" {
 		rr.Bad(key+"/level", pi.Call.Pos(), "protocol level byte is %s, not the ProtocolLevel option", f)
 	}
 	cc := c.newChain()
-	base, items, ok := cc.decomposeOr(all[0][7].Val)
+	base, items, ok := cc.decomposeOr(flat[7].Val)
 	if !ok || base != 0 {
 		rr.Undecided(key, pi.Call.Pos(), "cannot decompose the connect flags byte (%s)", cc.err)
 		return
@@ -472,13 +510,16 @@ func (c *Ctx) checkConnectFlags(rr *RuleRep, pi packInfo, all [][]bItem) {
 		}
 	}
 	// each optional payload group is appended under the very condition that sets its flag
-	for _, it := range all[2] {
+	for _, it := range flat[8:] {
 		if it.Kind != "opt" {
 			continue
 		}
 		f, op, _ := c.condField(it.Cond)
 		fc := seen[f+" "+op]
-		if fc == nil || fc.If != it.Cond.If {
+		// the same test, or the same condition on the same packet evaluated a second time in a function that does not
+		// write the packet's fields in between (flags computed first, payload appended afterwards)
+		sameCond := fc != nil && fc.If != it.Cond.If && fc.Desc == it.Cond.Desc && fc.Edge == it.Cond.Edge && !c.writesFieldsOf(pi.F, "pktConnect")
+		if fc == nil || (fc.If != it.Cond.If && !sameCond) {
 			okAll = false
 			rr.Bad(key, pi.Call.Pos(), "the payload field group guarded by `%s` is not appended under the same test that sets its connect flag: flag and payload can disagree", it.Cond.Desc)
 		}
@@ -570,6 +611,21 @@ func (c *Ctx) ruleInverseTables(rr *RuleRep) {
 					}
 				}
 			}
+		}
+		if _, have := tbl[k]; !have {
+			// the value travels through a result variable of a decoding helper: the constant it holds on the paths through this arm
+			eachInstr(p, func(in ssa.Instruction) {
+				st, ok := in.(*ssa.Store)
+				if !ok {
+					return
+				}
+				if _, isQ := isFieldAddr(st.Addr, "Message", "QoS"); !isQ {
+					return
+				}
+				if vals, ok := constsAlong(p, ifEdge{b, 0}, st, st.Val, nil); ok && len(vals) == 1 {
+					tbl[k] = vals[0]
+				}
+			})
 		}
 	}
 	if len(tbl) == 3 && tbl[0] == 0 && tbl[2] == 1 && tbl[4] == 2 {
@@ -1520,21 +1576,29 @@ func (c *Ctx) literalPackSite(r2, r4 *RuleRep, t string) bool {
 	if len(rets) != 1 || len(rets[0].Results) != 1 {
 		return false
 	}
-	sl, ok := c.Resolve(rets[0].Results[0]).(*ssa.Slice)
-	if !ok || sl.Low != nil || sl.High != nil {
+	// the bytes of the returned slice: a literal, or a chain of appends / append helpers onto an empty buffer
+	dc := c.newChain()
+	chain := dc.decompose(c.Resolve(rets[0].Results[0]))
+	if dc.err != "" || len(chain) < 2 {
 		return false
 	}
-	al, ok := sl.X.(*ssa.Alloc)
-	if !ok || al.Parent() != f {
-		return false
-	}
-	elems := arrayElems(al)
-	if len(elems) < 2 {
-		return false
-	}
-	for _, e := range elems {
-		if e == nil {
+	var elems []ssa.Value
+	for _, it := range chain[:2] {
+		if it.Kind != "byte" || it.Val == nil {
 			return false
+		}
+		elems = append(elems, it.Val)
+	}
+	bodyItems := chain[2:]
+	bodyLen := int64(0)
+	for _, it := range bodyItems {
+		switch it.Kind {
+		case "byte":
+			bodyLen++
+		case "uint16":
+			bodyLen += 2
+		default:
+			return false // not a fixed-size packet
 		}
 	}
 	pos := rets[0].Pos()
@@ -1563,17 +1627,12 @@ func (c *Ctx) literalPackSite(r2, r4 *RuleRep, t string) bool {
 		r2.OK(key, pos, "fixed header 0x%02X", total)
 	}
 	n, isK := constInt(elems[1])
-	bodyLen := int64(len(elems) - 2)
 	if !isK || n != bodyLen || bodyLen > 0x7F {
 		r2.Bad(FuncName(f)+"/length", pos, "the remaining-length byte of the literal %s packet is not the constant number of bytes that follow it (%d)", t, bodyLen)
 		return true
 	}
 	r2.OK(FuncName(f)+"/length", pos, "remaining length %d = number of body bytes of the literal", n)
-	var its []bItem
-	for _, e := range elems[2:] {
-		its = append(its, bItem{Kind: "byte", Val: e})
-	}
-	its = c.fuseUint16(its)
+	its := c.fuseUint16(bodyItems)
 	got := c.renderItems(its)
 	wantBody := ""
 	switch t {
@@ -1686,4 +1745,24 @@ func (c *Ctx) fuseUint16(its []bItem) []bItem {
 		out = append(out, its[i])
 	}
 	return out
+}
+
+// writesFieldsOf: f stores into a field of the named struct type (other than into a struct it has just allocated itself).
+func (c *Ctx) writesFieldsOf(f *ssa.Function, typ string) bool {
+	found := false
+	eachInstr(f, func(in ssa.Instruction) {
+		st, ok := in.(*ssa.Store)
+		if !ok {
+			return
+		}
+		fa, ok := st.Addr.(*ssa.FieldAddr)
+		if !ok || typeName(fa.X.Type()) != typ {
+			return
+		}
+		if al, isAl := fa.X.(*ssa.Alloc); isAl && al.Parent() == f {
+			return
+		}
+		found = true
+	})
+	return found
 }
